@@ -192,10 +192,6 @@ pub fn decode_all(frame: &[u8], cfg: &DecodeCfg) -> DecodeResult {
         ResponseWithDeserializedMetadataV2::AuthChallenge(a) => Content::AuthChallenge(a.authenticate_message),
         ResponseWithDeserializedMetadataV2::AuthSuccess(a) => Content::AuthSuccess(a.success_message),
         ResponseWithDeserializedMetadataV2::Event(e) => Content::Event(format!("{e:?}")),
-        _ => {
-            modellable = false;
-            Content::Ready
-        }
         ResponseWithDeserializedMetadataV2::Result(r) => match r {
             dres::ResultWithDeserializedMetadata::Void => Content::Void,
             dres::ResultWithDeserializedMetadata::SetKeyspace(k) => Content::SetKeyspace(k.keyspace_name),
@@ -279,6 +275,10 @@ pub fn decode_all(frame: &[u8], cfg: &DecodeCfg) -> DecodeResult {
                 Content::Rows { cols: cols.unwrap_or_default(), paging, new_id, rows: out_rows }
             }
         },
+        _ => {
+            modellable = false;
+            Content::Ready
+        }
     };
     DecodeResult::Ok(
         Box::new(Decoded {
@@ -813,8 +813,19 @@ pub fn run_one(path: &Path) -> i32 {
     alloc::LIMIT_ON.store(true, std::sync::atomic::Ordering::Relaxed);
     let input: Input = serde_json::from_slice(&std::fs::read(path).expect("input")).expect("input json");
     let frame = unhex(&input.frame_hex);
-    match guarded_decode(&frame, &input.cfg).result {
-        Ok(_) => 0,
+    let cfg = input.cfg;
+    let r = std::thread::Builder::new()
+        .name("decode".into())
+        .stack_size(2 << 20)
+        .spawn(move || {
+            install_panic_hook();
+            guarded_decode(&frame, &cfg).result.map(|_| ())
+        })
+        .expect("spawn decode thread")
+        .join()
+        .expect("decode thread");
+    match r {
+        Ok(()) => 0,
         Err((sig, msg)) => {
             println!("ONE-VIOLATION {sig} {}", msg.replace('\n', " "));
             3
@@ -969,7 +980,15 @@ pub fn worker_main(args: &[String]) -> i32 {
     let cases: u64 = args[2].parse().unwrap();
     let muts: usize = args[3].parse().unwrap();
     let skip: Vec<String> = args.get(5).map(|s| s.split(',').filter(|x| !x.is_empty()).map(|x| x.to_string()).collect()).unwrap_or_default();
-    let out = worker(seed, start, cases, muts, Path::new(&args[4]), &skip);
+    // decode on a thread with tokio's default worker stack size (2 MiB): that is where the driver parses frames
+    let inflight = PathBuf::from(&args[4]);
+    let out = std::thread::Builder::new()
+        .name("decode".into())
+        .stack_size(2 << 20)
+        .spawn(move || worker(seed, start, cases, muts, &inflight, &skip))
+        .expect("spawn decode thread")
+        .join()
+        .expect("decode thread");
     append_line(&out_file_of(Path::new(&args[4])), &format!("WORKER-OUT {}", serde_json::to_string(&out).unwrap()));
     0
 }
